@@ -415,7 +415,7 @@ def main(tier: str) -> int:
     res = Result(PROP, tier, s, rule=RULE)
     res.assumptions = ['oracle: the original quantizer (itself under the C01 oracle in check C01); operands on which the original raises are counted, not compared',
                        'a refusal (TransformDeclined, or a site not rewritten) is always acceptable']
-    run_shards('vf.checks.c10', 16, tier, s, timeout=1500 if tier == 'quick' else 3400, res=res)
+    run_shards('vf.checks.c10', 16 if tier == 'quick' else 48, tier, s, timeout=1500 if tier == 'quick' else 3400, res=res)
     v, c = res.counters.get('variants', 0), res.counters.get('variants_changed', 0)
     res.extra['changed_fraction'] = round(c / v, 3) if v else 0
     if v and c < 0.25 * v and not res.violations:
